@@ -39,6 +39,7 @@ def check(ctx):
     r17_2(ctx)
     r17_3(ctx)
     r17_5(ctx)
+    r17_7(ctx)
     # R17.4
     run = c03.index_run(ctx, "R17.4")
     info = c03.r03_1(ctx, run)
@@ -414,6 +415,37 @@ def r17_5(ctx):
     ctx.require_count("R17.5", n, 8, "gaftools/", "operations on GAF handles")
     if not any(i.rule == "R17.5" and i.verdict == "violated" for i in ctx.instances):
         ctx.holds("R17.5", "gaftools/", f"all {n} operations on GAF handles take whole lines (iteration / readline) or position the handle (tell / seek / close)")
+
+
+def r17_7(ctx):
+    """Default index name: the GAF path itself plus a constant suffix, in the indexer and in view alike.  A name that drops
+    the compression suffix maps aln.gaf and aln.gaf.gz to one index file, whose offsets fit only the file indexed last."""
+    repo = ctx.repo
+    seen = {}
+    for modname in ("gaftools.cli.index", "gaftools.cli.view"):
+        mod = repo.module(modname, "R17.7")
+        for f in mod.funcs.values():
+            gaf_params = [p_ for p_ in f.params if p_ in ("gaf", "gaf_path", "gaf_file")]
+            if not gaf_params:
+                continue
+            gp = gaf_params[0]
+            for st in walk_own(f.node):
+                if not (isinstance(st, ast.Assign) and isinstance(st.targets[0], ast.Name) and st.targets[0].id in f.params and gp in names_in(st.value)):
+                    continue
+                consts = [x.value for x in ast.walk(st.value) if isinstance(x, ast.Constant) and isinstance(x.value, str)]
+                if not any(cst.endswith(".gvi") for cst in consts):
+                    continue
+                v = norm(st.value)
+                if v in (f"{gp} + '.gvi'", f"f'{{{gp}}}.gvi'", f"'%s.gvi' % {gp}", f"'{{}}.gvi'.format({gp})"):
+                    seen[modname] = v
+                    ctx.holds("R17.7", f.where(st), "the default index name is the GAF path plus '.gvi': a plain file and its compressed copy get different index files")
+                elif any(k in v for k in ("[:-3]", "removesuffix(", "replace('.gz'", "splitext(", "rstrip('.gz')", "rsplit('.', 1)", ".stem")):
+                    seen[modname] = v
+                    ctx.violated("R17.7", f.where(st), f"the default index name `{v[:80]}` drops the compression suffix: aln.gaf and aln.gaf.gz share one index, and the offsets stored last do not resolve in the other file", key_of(f, f"index-name:{v[:60]}"))
+                else:
+                    raise AnalysisError("R17.7", f.where(st), f"default index name `{v[:80]}`: cannot decide whether it is one-to-one in the GAF path")
+    if len(seen) < 2:
+        raise AnalysisError("R17.7", "gaftools/cli/", f"default index name found in {sorted(seen)} only (expected the indexer and view)")
 
 
 def r17_3(ctx):
